@@ -709,6 +709,8 @@ func (env *CEnv) quant(x *CExpr) CV {
 			sort, T = SBool, types.Typ[types.Bool]
 		case "Ref":
 			sort = SInt
+		case "Seq":
+			sort = "BSeq"
 		case "string":
 			sort, T = SStr, types.Typ[types.String]
 		default:
@@ -738,8 +740,8 @@ func (env *CEnv) call(x *CExpr) CV {
 			v := env.eval(x.Args[0])
 			if v.T == nil {
 				t := env.asTerm(v)
-				if t.Sort == "Seq" {
-					return CV{V: App("seq.len", BV(64), t), T: types.Typ[types.Int]}
+				if t.Sort == "BSeq" {
+					return CV{V: App("bseq.len", BV(64), t), T: types.Typ[types.Int]}
 				}
 				cfail("len of a pure SMT value")
 			}
@@ -932,10 +934,10 @@ func (env *CEnv) seqOf(v CV) *Term {
 	case SSlice:
 		var arr *Term
 		env.withState(env.st, func() { arr = env.e.backing(t, types.Typ[types.Byte]) })
-		return App("seq.of", "Seq", arr, SlOff(t), SlLen(t))
+		return App("bseq.of", "BSeq", arr, SlOff(t), SlLen(t))
 	case SStr:
-		return App("seq.of", "Seq", StrArr(t), bv64zero, StrLen(t))
-	case "Seq":
+		return App("bseq.of", "BSeq", StrArr(t), bv64zero, StrLen(t))
+	case "BSeq":
 		return t
 	}
 	cfail("bytes() of %s", t.Sort)
